@@ -68,6 +68,7 @@ from vgi_rpc.rpc._types import (
 from vgi_rpc.shm import ShmSegment, is_shm_pointer_batch, maybe_write_to_shm, resolve_shm_batch
 from vgi_rpc.utils import (
     ArrowSerializableDataclass,
+    IPCError,
     IpcValidation,
     ValidatedReader,
     _is_optional_type,
@@ -402,7 +403,13 @@ def _read_request(
 
     """
     reader = ValidatedReader(ipc.open_stream(reader_stream), ipc_validation)
-    batch, custom_metadata = reader.read_next_batch_with_custom_metadata()
+    try:
+        batch, custom_metadata = reader.read_next_batch_with_custom_metadata()
+    except IPCError:
+        # The batch was read off the stream before it failed validation; read on
+        # to EOS so the rejected request cannot desynchronise the next one.
+        _drain_stream(reader)
+        raise
     # Drain past the request stream's EOS *before* any validation that
     # might raise.  On pipe/subprocess transports the underlying reader
     # is shared across requests, so a rejected request that left bytes
@@ -455,10 +462,11 @@ def _read_request(
     # Store trace context in contextvar for hook consumption (pipe/subprocess transport)
     tp = custom_metadata.get(TRACEPARENT_KEY) if custom_metadata else None
     if tp is not None:
-        headers: dict[str, str] = {"traceparent": tp.decode()}
+        # Trace context is advisory: undecodable bytes must not fail the request.
+        headers: dict[str, str] = {"traceparent": tp.decode(errors="replace")}
         ts = custom_metadata.get(TRACESTATE_KEY) if custom_metadata else None
         if ts is not None:
-            headers["tracestate"] = ts.decode()
+            headers["tracestate"] = ts.decode(errors="replace")
         _current_trace_headers.set(headers)
     # If the outer batch is an external-location pointer, fetch the
     # referenced bytes and use the inner batch's columns for kwargs.
